@@ -42,6 +42,10 @@ def run(prog: Program, rep, tier: str) -> None:
     # functions of their arguments - a memo keyed on fewer arguments hands different solvers / different calls different matrices
     from . import c13 as _c13
     _c13.formula_classes_pure(prog, rep, with_iterate=True)
+    # every solver builds its system from the same cached evaluations of the iterate (and from shared helpers such as keep_rows):
+    # one of them writing into those matrices changes what the next one - or the next step - computes
+    _c13.evaluations_not_corrupted(prog, rep)
+    overrides_keep_base_effects(prog, rep)
     hessian_multiplier(prog, rep)
     elimination_constants(prog, rep)
     invalidation(prog, rep)
@@ -499,6 +503,52 @@ def _const_str(e: ast.AST, mod=None) -> Optional[str]:
                 return None
         return "".join(parts)
     return None
+
+
+_MUTATORS = {"clear", "append", "extend", "pop", "popitem", "update", "insert", "remove", "add", "discard", "setdefault", "move_to_end", "reset", "invalidate"}
+
+
+def _state_effects(m: FuncInfo) -> Set[str]:
+    """attributes of self a method re-binds, writes into, or mutates through a container method"""
+    out: Set[str] = set()
+    for n in own_nodes(m.node):
+        if isinstance(n, (ast.Assign, ast.AugAssign, ast.AnnAssign)):
+            for t in (n.targets if isinstance(n, ast.Assign) else [n.target]):
+                for x in ast.walk(t):
+                    if is_self_attr(x) and isinstance(x.ctx, ast.Store):
+                        out.add(x.attr)
+                if isinstance(t, ast.Subscript) and is_self_attr(t.value):
+                    out.add(t.value.attr)
+        if isinstance(n, ast.Call) and isinstance(n.func, ast.Attribute) and n.func.attr in _MUTATORS and is_self_attr(n.func.value):
+            out.add(n.func.value.attr)
+    return out
+
+
+def overrides_keep_base_effects(prog: Program, rep) -> None:
+    """Sibling agreement through inheritance: a method that overrides a concrete base-class method without calling it must still
+    do to the object's state what the base version does (re-bind / reset the same attributes) - a cache the base class invalidates
+    in `update_derivs` stays stale in a subclass whose override forgets it, and that subclass then computes another step."""
+    n = 0
+    for c in prog.classes.values():
+        if not prog.in_scope(c):
+            continue
+        for name, m in c.methods.items():
+            if name.startswith("__") or not isinstance(m.node, (ast.FunctionDef, ast.AsyncFunctionDef)):
+                continue
+            for b in prog.mro(c)[1:]:
+                bm = b.methods.get(name)
+                if bm is None:
+                    continue
+                eb = _state_effects(bm)
+                calls_super = any(isinstance(k, ast.Call) and isinstance(k.func, ast.Attribute) and k.func.attr == name and U(k.func.value).startswith("super(") for k in own_nodes(m.node))
+                if eb and not calls_super:
+                    n += 1
+                    missing = sorted(eb - _state_effects(m))
+                    rep.check(not missing, "override-keeps-base-effects", m.qualname, name,
+                              f"{c.name}.{name} overrides {b.name}.{name} without calling it and re-binds / resets everything the base version does "
+                              f"(base: {sorted(eb)}" + (f"; NOT touched by the override: {missing})" if missing else ")"), m.loc())
+                break
+    rep.note(f"overrides of state-changing base methods examined: {n}")
 
 
 def _class_by_name_lookup(prog: Program, f: FuncInfo, e: ast.AST) -> Optional[ClassInfo]:
